@@ -124,7 +124,12 @@ pub uninterp spec fn limit_ok(tm: &TerminationModel, size: nat, it: nat) -> bool
 pub open spec fn key_spec(d: Direction, e: Edge) -> VertexId { match d { Direction::Forward => e.dst_vertex_id, Direction::Reverse => e.src_vertex_id } }
 pub open spec fn term_spec(d: Direction, e: Edge) -> VertexId { match d { Direction::Forward => e.src_vertex_id, Direction::Reverse => e.dst_vertex_id } }
 
+#[verifier::external_body] pub struct Vertex { _p: u8 }
 impl Graph {
+    #[verifier::external_body]
+    pub fn get_vertex(&self, v: &VertexId) -> (r: Result<&Vertex, SearchError>)
+        ensures r matches Err(err) ==> !(err is NoPathExistsBetweenVertices) && !(err is TerminationModelFailure)
+    { unimplemented!() }
     #[verifier::external_body]
     pub fn get_edge(&self, e: &EdgeId) -> (r: Result<&Edge, SearchError>)
         ensures r matches Ok(x) ==> *x == edge_of(self, *e) && has_edge(self, *e),
